@@ -65,11 +65,16 @@ func (s *streamWriter) Invoke(msgs []actor.Envelope) {
 
 	for i := 0; i < len(msgs); i++ {
 		var (
-			stream   = msgs[i].Msg.(*streamDeliver)
 			typeID   int32
 			senderID int32
 			targetID int32
 		)
+		// Our PID is no secret: local actors and remote peers can send us
+		// anything. Whatever is not an outbound delivery is ignored.
+		stream, ok := msgs[i].Msg.(*streamDeliver)
+		if !ok {
+			continue
+		}
 		// A message that cannot be serialized is dropped on its own, before
 		// it leaves any trace in the envelope.
 		b, err := s.serializer.Serialize(stream.msg)
